@@ -3,7 +3,7 @@ import z3
 from harness import *
 from wrapbase import *
 
-TOKS = ['\x1b[1m', '\x1b]8;;x\x1b\\']
+TOKS = ['\x1b[1m', '\x1b]8;;x\x1b\\', '\x1b]0;c:\\a\x07']
 
 
 class C13(WrapHarness):
